@@ -656,11 +656,11 @@ impl<'tcx> Interp<'tcx> {
             return None;
         }
         if n == "core::bool::<impl bool>::then_some" {
-            // Some(v) when the flag holds, None otherwise; a tainted flag stays unmodelled (fail closed: the
-            // discriminant of the result would carry the secret)
+            // Some(v) when the flag holds, None otherwise
             if let Val::Int(b) = a.get(0)? {
                 if b.taint != 0 {
-                    return None;
+                    // `if self { Some(t) } else { None }`: a branch on the flag (reported to C14, ignored elsewhere)
+                    self.leak("select", "bool::then_some on a flag derived from tainted data");
                 }
                 let v = a.get(1)?.clone();
                 return match b.is_const() {
@@ -686,13 +686,16 @@ impl<'tcx> Interp<'tcx> {
             return None;
         }
         if n == "core::cmp::Ord::min" || n == "core::cmp::Ord::max" || n == "core::cmp::min" || n == "core::cmp::max" {
-            // integers only; tainted operands stay unmodelled (a comparison on secrets is C14's business)
+            // integers only
             if let (Val::Int(x), Val::Int(y)) = (a.get(0)?, a.get(1)?) {
-                if x.taint != 0 || y.taint != 0 || x.ty != y.ty {
+                if x.ty != y.ty {
                     return None;
                 }
+                if x.taint != 0 || y.taint != 0 {
+                    self.leak("select", "Ord::min / max compares tainted data and branches on the outcome");
+                }
                 let r = if n.ends_with("min") { IntV::new(x.lo.min(y.lo), x.hi.min(y.hi), x.ty) } else { IntV::new(x.lo.max(y.lo), x.hi.max(y.hi), x.ty) };
-                return one(Val::Int(r));
+                return one(Val::Int(r.with_taint(x.taint | y.taint)));
             }
             return None;
         }
